@@ -125,6 +125,7 @@ func printConfig(u *hx.UciSession) (map[string]string, *hx.Failure) {
 }
 
 type goRecord struct {
+	root     rc.Pos
 	sent     time.Time
 	limits   hx.LimSpec
 	stopSent time.Time // zero if never stopped
@@ -279,7 +280,7 @@ func propC12(c uciCase, o *hx.Obs) *hx.Failure {
 				infOrPonder = true
 			}
 			t := u.Send(goLine(l))
-			gos = append(gos, goRecord{sent: t, limits: l, index: i})
+			gos = append(gos, goRecord{root: curPos, sent: t, limits: l, index: i})
 			searching = true
 			o.Label("go:" + l.Mode)
 		case "stop":
@@ -360,8 +361,29 @@ func propC12(c uciCase, o *hx.Obs) *hx.Failure {
 		if g.limits.Mode == "ponder" && !g.hitSent.IsZero() && b.At.Before(g.hitSent) && (g.stopSent.IsZero() || b.At.Before(g.stopSent)) {
 			return fail(hx.Failf("C12/bestmove/premature-ponder", "'%s' answered before ponderhit", goLine(g.limits)))
 		}
-		if f := strings.Fields(b.Text); len(f) < 2 || f[1] == "NoMove" {
+		f := strings.Fields(b.Text)
+		if len(f) < 2 || f[1] == "NoMove" {
 			return fail(hx.Failf("C12/bestmove/nomove", "go %d '%s' answered %q", k+1, goLine(g.limits), b.Text))
+		}
+		// the answer belongs to this go: legal in the position the go was issued on (and in the searchmoves list)
+		bm, ok := g.root.FindUCI(f[1])
+		if !ok {
+			return fail(hx.Failf("C12/bestmove/illegal", "go %d '%s' on %s answered %q", k+1, goLine(g.limits), g.root.FEN(), b.Text))
+		}
+		if len(g.limits.Moves) > 0 {
+			in := false
+			for _, m := range g.limits.Moves {
+				in = in || strings.EqualFold(m, f[1])
+			}
+			if !in {
+				return fail(hx.Failf("C12/bestmove/not-in-searchmoves", "go %d '%s' answered %q", k+1, goLine(g.limits), b.Text))
+			}
+		}
+		if len(f) >= 4 && f[2] == "ponder" {
+			after := g.root.Make(bm)
+			if _, ok := after.FindUCI(f[3]); !ok {
+				return fail(hx.Failf("C12/bestmove/illegal-ponder", "go %d '%s' on %s answered %q", k+1, goLine(g.limits), g.root.FEN(), b.Text))
+			}
 		}
 	}
 	// (2) every isready answered
